@@ -47,6 +47,7 @@ STAGES = {
 }
 
 TSS = [(2018, 3, 7, 12, 43), (1999, 12, 31, 23, 59), (2020, 2, 29, 0, 0), (2029, 6, 30, 18, 5)]
+FAR = [(1975, 6, 1, 10, 0), (2055, 3, 3, 3, 3), (2099, 12, 31, 23, 59)]
 
 
 def run(ctx):
@@ -62,7 +63,7 @@ def run(ctx):
     sel = [x for i, x in enumerate(dates) if i % step == off or x[2] >= 28 or x[2] == 1]
     if ctx.quick:
         sel = [x for x in sel if x[0] % 3 == off % 3 or x[2] >= 28]
-    cases = [{"date": x, "tss": TSS[:2] if ctx.quick else TSS} for x in sel]
+    cases = [{"date": x, "tss": (TSS[:2] if ctx.quick else TSS) + (FAR if (x[2] == 1 and x[1] in (1, 7)) or not ctx.quick else [])} for x in sel]
     # dates outside 1990-2029 that the year pattern still accepts, incl. the century rule (1900 is not a leap year)
     cases += [{"date": x, "tss": TSS[:2]} for x in [(1900, 2, 28), (1900, 3, 1), (1999, 12, 31), (1996, 2, 29), (1904, 2, 29), (1950, 6, 15)]]
     core.run_stage(ctx, "rule-rows", cases, rows_for_date, "RulesTrace", sig_keys=(), nontrivial=lambda c: c["date"])
@@ -84,10 +85,21 @@ def run(ctx):
             for ts in tss:
                 cases.append({"text": text, "D": D, "ts": ts, "label": lab, "form": lab})
             if d in (1, 31) or not ctx.quick:
-                for (H, M, ctext) in ((9, 5, "9:05"), (23, 59, "23:59"), (15, 30, "3:30pm")):
+                yl = tss[0][0]      # a clock whose digits read as the reference year or the next (20:18 at 2018)
+                for (H, M, ctext) in ((9, 5, "9:05"), (23, 59, "23:59"), (15, 30, "3:30pm"),
+                                      (yl // 100, yl % 100, "%d:%02d" % (yl // 100, yl % 100)),
+                                      ((yl + 1) // 100, (yl + 1) % 100, "%d:%02d" % ((yl + 1) // 100, (yl + 1) % 100))):
+                    if M > 59:
+                        continue
                     C = G.clock(H, M)
                     ccases.append({"text": text + " " + ctext, "D": D, "C": C, "ts": tss[0], "label": lab + "+clock", "form": lab})
                     ccases.append({"text": ctext + " " + text, "D": D, "C": C, "ts": tss[-1], "label": "clock+" + lab, "form": lab})
+    # numeric dates (incl. two-digit years = 20yy) under reference times far from the date: 1970s, 2050s, 2099
+    far = [(1975, 6, 1, 10, 0), (1949 + 21, 1, 1, 0, 0), (2055, 3, 3, 3, 3), (2099, 12, 31, 23, 59)]
+    for (y, m, d) in [(2013, 3, 5), (2029, 12, 31), (2000, 2, 29), (2001, 1, 1), (1999, 12, 31), (2024, 2, 29)]:
+        for lab, text, D in G.date_forms(d, m, y, named=False):
+            for ts in far:
+                cases.append({"text": text, "D": D, "ts": ts, "label": lab, "form": lab + " (far reference time)"})
     core.run_stage(ctx, "e2e-dates", cases, e2e.obs_day, "DenoteTrace")
     core.run_stage(ctx, "e2e-datetimes", ccases, e2e.obs_dayclock, "DenoteTrace")
 
